@@ -150,6 +150,11 @@ func fittedInput(rng *simkit.RNG) []Item {
 func generate(rng *simkit.RNG, idx int64) (Config, []Item) {
 	var items []Item
 	cfg := Config{V: 1}
+	// One run in twelve is of the small family "the command cannot be
+	// started" (nostart.go).
+	if rng.Chance(1, 12) {
+		return generateNoStart(rng)
+	}
 	// Some runs go through simpleshell.GoSimple and a C2 side served by the
 	// worker.  Those whose consumer naps in real time take seconds instead of
 	// milliseconds: a worker makes them often among its first runs (so that
